@@ -22,11 +22,13 @@ func VH_C12_closest_sched() {
 		vAssert("C12.closest.no-error", err == nil)
 		return string(w.buf)
 	}
-	base := run(1)
-	// any --threads value (0 = all processors) on 1..NCPU processors, under any explored schedule
+	// any --threads value (0 = all processors) on 1..NCPU processors, under any explored schedule; the explored
+	// run comes first, on fresh package state, the single-thread reference run follows
 	threads := vChoice("threads", 4)
 	vNumCPU(1 + vChoice("ncpu", vParam("NCPU")))
 	vRaceDetect()
 	vSchedExplore(vParam("DEV"))
-	vAssert("C12.closest.output-independent-of-schedule", run(threads) == base)
+	got := run(threads)
+	vSchedExplore(0)
+	vAssert("C12.closest.output-independent-of-schedule", got == run(1))
 }
